@@ -594,6 +594,7 @@ def write_evidence(prop, tier, base, flavours, results, crashes, found, new, see
             if s.get("team_smaller", 0) > 0: faults["team_smaller"] += 1
             if s.get("ran_after_scribble", 0) > 0: faults["stack_scribble"] += 1
             if s.get("overlaps", 0) > 0: faults["overlap_inside_callback"] += 1
+            if s.get("started_deep", 0) > 0: faults["preempt_inside_kernel_operator"] += 1
         trivial = (s.get("tasks", 0) == 0) if r.get("executor") not in ("seq", "seqtsm") else False
         if r.get("executor") in ("seq", "seqtsm"):
             nontrivial.add(("seq", r["seed"]))     # sequential executors: one point per scenario
